@@ -32,13 +32,15 @@ def isObj : JsVal → Bool
 
 /-- membership against an object shape -/
 def memShapeR (exact : Bool) (m : Ty → JsVal → Option Bool)
-    (ms : List (String × Bool × Ty)) (ix : Option (Ty × Ty)) (v : JsVal) : Option Bool :=
+    (ms : List (String × Bool × Ty)) (ix : Option (Ty × Ty)) (v : JsVal) (lenient : Bool := false) : Option Bool :=
   match v with
   | .obj props =>
     let declared := allO (fun (mb : String × Bool × Ty) =>
       match props.find? (fun p => p.1 == mb.1) with
       | some p => m mb.2.2 p.2
-      | none => some mb.2.1) ms
+      -- `lenient`: a missing property is read as `undefined` (what the validators do: a required property whose type
+      -- admits undefined / null may be absent)
+      | none => some (mb.2.1 || (lenient && (m mb.2.2 .undef == some true || m mb.2.2 .null == some true)))) ms
     let others := props.filter fun p => !(ms.any fun mb => mb.1 == p.1)
     let extra := match ix with
       | some (_, tv) => allO (fun (p : String × JsVal) => m tv p.2) others
@@ -100,7 +102,7 @@ def isTop : Ty → Bool
   | .kw "unknown" | .kw "any" => true
   | _ => false
 
-def memR (decls : List Decl) (exact : Bool) : Nat → Ty → JsVal → Option Bool
+def memRG (decls : List Decl) (exact lenient : Bool) : Nat → Ty → JsVal → Option Bool
   | 0, _, _ => none
   | n+1, t, v =>
     match t with
@@ -113,42 +115,45 @@ def memR (decls : List Decl) (exact : Bool) : Nat → Ty → JsVal → Option Bo
     | .kw "never" => some false
     | .kw _ => none
     | .lit l => some (JsVal.strictEqPrim v l)
-    | .paren t | .readonly t => memR decls exact n t v
+    | .paren t | .readonly t => memRG decls exact lenient n t v
     | .array t => (match v with
-      | .arr items => allO (memR decls exact n t) items
+      | .arr items => allO (memRG decls exact lenient n t) items
       | _ => some false)
     | .tuple pre rest => (match v with
       | .arr items =>
         if items.length < pre.length then some false
         else
-          let heads := allO (fun (p : Ty × JsVal) => memR decls exact n p.1 p.2) (pre.zip items)
+          let heads := allO (fun (p : Ty × JsVal) => memRG decls exact lenient n p.1 p.2) (pre.zip items)
           let tail := items.drop pre.length
           let tl := match rest with
             | none => some tail.isEmpty
-            | some r => allO (memR decls exact n r) tail
+            | some r => allO (memRG decls exact lenient n r) tail
           (match heads, tl with
           | some a, some b => some (a && b)
           | _, _ => none)
       | _ => some false)
-    | .union ts => anyO (fun t => memR decls exact n t v) ts
-    | .obj ms ix => memShapeR exact (memR decls exact n) ms ix v
+    | .union ts => anyO (fun t => memRG decls exact lenient n t v) ts
+    | .obj ms ix => memShapeR exact (memRG decls exact lenient n) ms ix v lenient
     | .inter _ =>
       anyO (fun (c : List Ty) =>
         let c := c.filter (fun a => !isTop a)
         match c.mapM (shapeX decls 50) with
         | some (s0 :: rest) =>
           let sh := rest.foldl mergeShape s0
-          memShapeR exact (memR decls exact n) sh.1 sh.2 v
+          memShapeR exact (memRG decls exact lenient n) sh.1 sh.2 v lenient
         | some [] => some true
         | none =>
           -- no object among the atoms (or mixed with scalars / lists): plain conjunction
           if c.any (fun a => (shapeX decls 50 a).isSome) then
-            (if isObj v then allO (fun a => memR decls exact n a v) c else some false)
-          else allO (fun a => memR decls exact n a v) c) (conjs decls 20 t)
+            (if isObj v then allO (fun a => memRG decls exact lenient n a v) c else some false)
+          else allO (fun a => memRG decls exact lenient n a v) c) (conjs decls 20 t)
     | .ref name args => (match decls.find? (fun d => d.name == name) with
-      | some (.alias _ ps body) => memR decls exact n (subst (ps.zip args) body) v
+      | some (.alias _ ps body) => memRG decls exact lenient n (subst (ps.zip args) body) v
       | _ => none)
     | _ => none
+
+/-- the reference membership (missing required properties are missing) -/
+def memR (decls : List Decl) (exact : Bool) : Nat → Ty → JsVal → Option Bool := memRG decls exact false
 
 -- ---------- representatives ----------
 mutual
